@@ -44,6 +44,8 @@ if CYC:
         ("kMinPathErrorCycles", dict(k=2, weight_type=int), "subset_constraints"),
         ("kPathCoverCycles", dict(k=2), "subset_constraints"),
         ("MinPathCoverCycles", dict(), "subset_constraints"),
+        ("kMinPathErrorCycles+scale0", dict(k=2, weight_type=int, error_scaling=dict([(("a", "a"), 0)])), "subset_constraints"),
+        ("kLeastAbsErrorsCycles+scale0", dict(k=2, weight_type=int, error_scaling=dict([(("a", "a"), 0)])), "subset_constraints"),
     ]
     CONSTRAINT = [[("a", "b"), ("b", "a")]]
     IGNORE = [("a", "a")]
@@ -57,12 +59,18 @@ else:
         ("MinPathCover", dict(), "subpath_constraints"),
         ("kLeastAbsErrors+superset", dict(k=2, weight_type=int, solution_weights_superset=[1, 2, 3]), "subpath_constraints"),
         ("kMinPathError+superset", dict(k=2, weight_type=int, solution_weights_superset=[1, 2, 3]), "subpath_constraints"),
+        ("kMinPathError+scale0", dict(k=2, weight_type=int, error_scaling=dict([(("a", "c"), 0)])), "subpath_constraints"),
+        ("kLeastAbsErrors+scale0", dict(k=2, weight_type=int, error_scaling=dict([(("a", "c"), 0)])), "subpath_constraints"),
+        ("MinFlowDecomp+scanning", dict(weight_type=int), "subpath_constraints"),
     ]
     CONSTRAINT = [[("a", "b"), ("b", "d")]]
     IGNORE = [("b", "c")]
 
 def _fresh_shared():
-    return {{"G": _graph(), "opts": {{"optimize_with_safe_zero_edges": True}}, "sopts": {{"threads": 2}}, "constraints": copy.deepcopy(CONSTRAINT), "ignore": list(IGNORE)}}
+    return {{"G": _graph(), "opts": {{"optimize_with_safe_zero_edges": True, "use_subgraph_scanning_lowerbound": True}}, "sopts": {{"threads": 2}}, "constraints": copy.deepcopy(CONSTRAINT), "ignore": list(IGNORE)}}
+
+fp.MinFlowDecomp.subgraph_lowerbound_size = 2
+fp.MinFlowDecomp.subgraph_lowerbound_shift = 1
 
 def _snap(sh):
     G = sh["G"]
@@ -73,6 +81,8 @@ def _run(ci, share_opts, share_lists, sh):
     name, kw, ckey = CLASSES[ci]
     cls = getattr(fp, name.split("+")[0])
     kw = copy.deepcopy(kw)
+    if name.endswith("+scanning") and not share_opts:
+        kw["optimization_options"] = {{"use_subgraph_scanning_lowerbound": True}}
     if share_opts:
         kw["optimization_options"] = sh["opts"]
         kw["solver_options"] = sh["sopts"]
@@ -127,6 +137,7 @@ def history(cs: List[int], so: List[bool], sl: List[bool]) -> bool:
     """
     pre: len(cs) == HLEN and len(so) == HLEN and len(sl) == HLEN
     pre: all(0 <= c < len(CLASSES) for c in cs)
+    pre: all(so[i] or not sl[i] for i in range(HLEN))
     post: _
     """
     with NoTracing():
@@ -176,9 +187,9 @@ def run_task(task):
     v = out.get("history", {"verdict": "error", "message": "no output"})
     res["obligations"] += 1
     res["queries"] += 1
-    n_cls = 8 if not task["cyc"] else 6
-    res["evaluations"] = (n_cls * 4) ** task["hlen"]
-    res["nontrivial"] += (n_cls * 4) ** task["hlen"] - n_cls * 4
+    n_cls = 11 if not task["cyc"] else 8
+    res["evaluations"] = (n_cls * 3) ** task["hlen"]
+    res["nontrivial"] += (n_cls * 3) ** task["hlen"] - n_cls * 3
     res["samples"].append({"harness": task["name"], "history": f"symbolic list of {task['hlen']} (class index, shares option dicts?, shares constraint/ignore lists?)", "verdict": v["verdict"], "cpu_s": round(cpu, 1)})
     if v["verdict"] == "confirmed":
         res["discharged"] += 1
@@ -192,8 +203,8 @@ def run_task(task):
     return res
 
 
-DAG_NAMES = ["kFlowDecomp", "MinFlowDecomp", "kLeastAbsErrors", "kMinPathError", "kPathCover", "MinPathCover", "kLeastAbsErrors+superset", "kMinPathError+superset"]
-CYC_NAMES = ["kFlowDecompCycles", "MinFlowDecompCycles", "kLeastAbsErrorsCycles", "kMinPathErrorCycles", "kPathCoverCycles", "MinPathCoverCycles"]
+DAG_NAMES = ["kFlowDecomp", "MinFlowDecomp", "kLeastAbsErrors", "kMinPathError", "kPathCover", "MinPathCover", "kLeastAbsErrors+superset", "kMinPathError+superset", "kMinPathError+scale0", "kLeastAbsErrors+scale0", "MinFlowDecomp+scanning"]
+CYC_NAMES = ["kFlowDecompCycles", "MinFlowDecompCycles", "kLeastAbsErrorsCycles", "kMinPathErrorCycles", "kPathCoverCycles", "MinPathCoverCycles", "kMinPathErrorCycles+scale0", "kLeastAbsErrorsCycles+scale0"]
 
 
 def _diag(task, call):
@@ -260,7 +271,11 @@ def _defaults(task, res):
             lambda: fp.kPathCover(G, k=2), lambda: fp.MinPathCover(G), lambda: fp.kFlowDecompCycles(H, "flow", k=2), lambda: fp.MinFlowDecompCycles(H, "flow"),
             lambda: fp.kLeastAbsErrorsCycles(H, "flow", k=2), lambda: fp.kMinPathErrorCycles(H, "flow", k=2), lambda: fp.kPathCoverCycles(H, k=2), lambda: fp.MinPathCoverCycles(H),
             lambda: fp.MinErrorFlow(G, "flow"), lambda: fp.MinFlowDecomp(N, "flow", flow_attr_origin="node"), lambda: fp.kMinPathError(N, "flow", k=1, flow_attr_origin="node"),
-            lambda: fp.MinPathCover(N, cover_type="node"), lambda: fp.MinGenSet([1, 2, 3], total=6), lambda: fp.MinSetCover([1, 2], [[1], [2]], [1, 1])]
+            lambda: fp.MinPathCover(N, cover_type="node"), lambda: fp.MinGenSet([1, 2, 3], total=6), lambda: fp.MinSetCover([1, 2], [[1], [2]], [1, 1]),
+            lambda: fp.kMinPathError(G, "flow", k=2, error_scaling={("a", "c"): 0}), lambda: fp.kLeastAbsErrors(G, "flow", k=2, error_scaling={("a", "c"): 0}),
+            lambda: fp.kMinPathErrorCycles(H, "flow", k=2, error_scaling={("a", "a"): 0}), lambda: fp.kLeastAbsErrorsCycles(H, "flow", k=2, error_scaling={("a", "a"): 0}),
+            lambda: fp.MinErrorFlow(G, "flow", error_scaling={("a", "c"): 0}), lambda: fp.kLeastAbsErrors(G, "flow", k=2, solution_weights_superset=[1, 2, 3]),
+            lambda: fp.kMinPathError(N, "flow", k=1, flow_attr_origin="node", error_scaling={"b": 0}), lambda: fp.kFlowDecomp(N, "flow", k=1, flow_attr_origin="node", elements_to_ignore=["b"])]
     for mk in runs:
         try:
             m = mk()
@@ -298,7 +313,7 @@ def replay(data):
 RULE = ("one evaluation = one history of model constructions/solves sharing the caller's graph, option dictionaries, constraint and ignore lists (class index and sharing bits symbolic); "
         "non-trivial = histories of length >= 2; plus one case per mutable default argument of an exported __init__")
 ASSUMPTIONS = [
-    "models are built and solved concretely under NoTracing on one DAG instance and one cyclic instance; CrossHair covers all histories of length 2 (3 in thorough) over 8 (6) class variants x 4 sharing patterns",
+    "models are built and solved concretely under NoTracing on one DAG instance and one cyclic instance; CrossHair covers all histories of length 2 (3 in thorough) over 11 (8) class variants (incl. given weights, zero error scale, subgraph scanning) x 3 sharing patterns (nothing shared / option dicts / option dicts + constraint and ignore lists)",
     "checked after every step: deep equality (repr) of the caller's graph incl. attributes, both option dicts, constraint and ignore lists with their pre-image; (solved, objective, #routes) equals the same call on fresh copies; get_solution/get_objective_value repeated twice agree",
 ]
 
@@ -309,5 +324,5 @@ def main(tier, seed):
     for t in tasks:
         t["timeout"] = 140 if tier == "quick" else 900
     acc = core.run_tasks(run_task, tasks, deadline_s=175 if tier == "quick" else 2400)
-    bounds = {"history_len": 2 if tier == "quick" else 3, "class_variants": {"dag": 8, "cyclic": 6}, "sharing_patterns": 4}
+    bounds = {"history_len": 2 if tier == "quick" else 3, "class_variants": {"dag": 11, "cyclic": 8}, "sharing_patterns": 3}
     return core.finish(PID, tier, seed, LEVEL, acc, t0, RULE, ASSUMPTIONS, bounds, replay)
